@@ -25,6 +25,16 @@ tlen = z3.Function("tlen", V, z3.IntSort())          # length of a tuple / immut
 titem = z3.Function("titem", V, z3.IntSort(), V)   # its items (EUF + LIA: no sequence theory needed)
 is_callable = z3.Function("is_callable", V, z3.BoolSort())
 dord = z3.Function("dord", V, z3.IntSort())         # microseconds ordinal of date/datetime
+_has_item_eq = {}
+
+
+def has_item_eq(k):
+    """has_item<k>_eq(seq, x): some entry e of the heap list has e[k] == x"""
+    if k not in _has_item_eq:
+        _has_item_eq[k] = z3.Function("has_item%d_eq" % k, SeqV, V, z3.BoolSort())
+    return _has_item_eq[k]
+
+
 isinst = z3.Function("isinst", V, V, z3.BoolSort())  # isinstance with a symbolic class
 pyeq_u = z3.Function("pyeq_u", V, V, z3.BoolSort())  # == on non-numeric, non-identical values
 strv = z3.Function("strv", V, z3.StringSort())      # content of str values
